@@ -53,10 +53,29 @@ pub enum Op {
     Sleep,
     Spin,
     Rand(u64),
-    /// caught panic while holding the locks acquired by the inner ops (poisoning)
+    ResetSteps,
+    /// access thread-local key k (0..3) of the static pool
+    TlsWith(usize),
+    /// force lazy static i (0..2) of the static pool
+    LazyGet(usize),
+    /// call_once on static Once i (0..2) of the static pool
+    StaticOnce(usize),
+    /// thread::current() id / name check
+    ThreadInfo,
+    /// thread::scope: spawn the listed bodies as scoped threads, run the inner ops in the
+    /// owner inside the scope closure, leave the scope (waits for all scoped threads).
+    /// Flattened labels: "i.b0".."i.bN" (spawns), "i.0".. (inner ops), "i.end".
+    Scope(Vec<usize>, Vec<Op>),
+    /// caught panic while holding the locks acquired by the inner ops (poisoning).
+    /// Flattened labels: "i.begin", "i.0".. (inner ops), "i.end" (the panic + catch).
     Catch(Vec<Op>),
     /// uncaught panic
     Fail,
+    // ---- internal pseudo-operations (produced by label flattening, never generated) ----
+    ScopedSpawn(usize),
+    ScopeEnd(Vec<usize>),
+    CatchBegin,
+    CatchEnd,
 }
 
 #[derive(Clone, Debug, PartialEq, Eq, Serialize, Deserialize, Default)]
@@ -90,7 +109,7 @@ impl Program {
         fn mentions(ops: &[Op], c: usize) -> bool {
             ops.iter().any(|o| match o {
                 Op::Send(x) | Op::TrySend(x) | Op::DropTx(x) => *x == c,
-                Op::Catch(inner) => mentions(inner, c),
+                Op::Catch(inner) | Op::Scope(_, inner) => mentions(inner, c),
                 _ => false,
             })
         }
@@ -98,11 +117,42 @@ impl Program {
     }
     pub fn parent_of(&self, body: usize) -> Option<usize> {
         for (b, ops) in self.bodies.iter().enumerate() {
-            if ops.iter().any(|o| matches!(o, Op::Spawn(x) if *x == body)) {
+            if ops.iter().any(|o| match o {
+                Op::Spawn(x) => *x == body,
+                Op::Scope(bs, _) => bs.contains(&body),
+                _ => false,
+            }) {
                 return Some(b);
             }
         }
         None
+    }
+    /// The flattened sequence of operation labels of a body (composite operations expand into
+    /// pseudo-operations), in the order the interpreter logs them.
+    pub fn labels(&self, body: usize) -> Vec<String> {
+        let mut v = vec![];
+        for (i, op) in self.bodies[body].iter().enumerate() {
+            match op {
+                Op::Scope(bs, inner) => {
+                    for k in 0..bs.len() {
+                        v.push(format!("{}.b{}", i, k));
+                    }
+                    for j in 0..inner.len() {
+                        v.push(format!("{}.{}", i, j));
+                    }
+                    v.push(format!("{}.end", i));
+                }
+                Op::Catch(inner) => {
+                    v.push(format!("{}.begin", i));
+                    for j in 0..inner.len() {
+                        v.push(format!("{}.{}", i, j));
+                    }
+                    v.push(format!("{}.end", i));
+                }
+                _ => v.push(i.to_string()),
+            }
+        }
+        v
     }
     /// a program is well formed if every non-main body is spawned exactly once, by a body with a
     /// smaller index (so the spawn relation is a tree)
@@ -110,11 +160,16 @@ impl Program {
         let mut count = vec![0; self.bodies.len()];
         for (b, ops) in self.bodies.iter().enumerate() {
             for o in ops {
-                if let Op::Spawn(x) = o {
-                    if *x >= self.bodies.len() || *x <= b {
+                let spawned: Vec<usize> = match o {
+                    Op::Spawn(x) => vec![*x],
+                    Op::Scope(bs, _) => bs.clone(),
+                    _ => vec![],
+                };
+                for x in spawned {
+                    if x >= self.bodies.len() || x <= b {
                         return false;
                     }
-                    count[*x] += 1;
+                    count[x] += 1;
                 }
             }
         }
@@ -260,7 +315,11 @@ fn run_body(ctx: Arc<Ctx>, body: usize) -> usize {
     log("B", body.to_string(), "");
     let ops = &prog.bodies[body];
     for (i, op) in ops.iter().enumerate() {
-        exec_op(&mut l, &i.to_string(), i, op);
+        match op {
+            Op::Scope(bs, inner) => exec_scope(&mut l, i, bs, inner),
+            Op::Catch(inner) => exec_catch(&mut l, i, inner),
+            _ => exec_op(&mut l, &i.to_string(), unique_val(body, i), op),
+        }
     }
     // Anything still held is parked in the context so that the end of the body has no effect that
     // the log does not show (the context lives until the execution is torn down).
@@ -277,15 +336,15 @@ fn run_body(ctx: Arc<Ctx>, body: usize) -> usize {
     // guards still held are released here, visibly: logged as implicit unlock operations
     for m in 0..l.mguards.len() {
         if l.mguards[m].is_some() {
-            exec_op(&mut l, &format!("x{}", m), usize::MAX, &Op::Unlock(m));
+            exec_op(&mut l, &format!("x{}", m), 0, &Op::Unlock(m));
         }
     }
     for m in 0..l.rguards.len() {
         if l.rguards[m].is_some() {
-            exec_op(&mut l, &format!("xr{}", m), usize::MAX, &Op::UnlockRead(m));
+            exec_op(&mut l, &format!("xr{}", m), 0, &Op::UnlockRead(m));
         }
         if l.wguards[m].is_some() {
-            exec_op(&mut l, &format!("xw{}", m), usize::MAX, &Op::UnlockWrite(m));
+            exec_op(&mut l, &format!("xw{}", m), 0, &Op::UnlockWrite(m));
         }
     }
     log("X", body.to_string(), "");
@@ -353,17 +412,144 @@ impl Drop for CatchScope<'_> {
     }
 }
 
-fn exec_op(l: &mut Local, label: &str, idx: usize, op: &Op) {
+/// unique value written by the inner operation j of composite operation i
+pub fn inner_unique_val(body: usize, i: usize, j: usize) -> u64 {
+    unique_val(body, 100 + i * 10 + j)
+}
+
+fn exec_scope(l: &mut Local, i: usize, bs: &[usize], inner: &[Op]) {
     let ctx = l.ctx.clone();
     let body = l.body;
-    let uv = if idx == usize::MAX { 0 } else { unique_val(body, idx) };
+    thread::scope(|s| {
+        for (k, b) in bs.iter().enumerate() {
+            let label = format!("{}.b{}", i, k);
+            log("S", label.clone(), "");
+            let b = *b;
+            *ctx.parent_thread[b].lock().unwrap() = Some(thread::current());
+            let c2 = ctx.clone();
+            let h = s.spawn(move || run_body(c2, b));
+            let tid: usize = h.thread().id().into();
+            log("E", label, tid.to_string());
+        }
+        for (j, op) in inner.iter().enumerate() {
+            exec_op(l, &format!("{}.{}", i, j), inner_unique_val(body, i, j), op);
+        }
+        log("S", format!("{}.end", i), "");
+    });
+    log("E", format!("{}.end", i), "");
+}
+
+fn exec_catch(l: &mut Local, i: usize, inner: &[Op]) {
+    let body = l.body;
+    log("S", format!("{}.begin", i), "");
+    log("E", format!("{}.begin", i), "");
+    let m_before: Vec<bool> = l.mguards.iter().map(|g| g.is_some()).collect();
+    let w_before: Vec<bool> = l.wguards.iter().map(|g| g.is_some()).collect();
+    let r_before: Vec<bool> = l.rguards.iter().map(|g| g.is_some()).collect();
+    let r = std::panic::catch_unwind(std::panic::AssertUnwindSafe(|| {
+        let scope = CatchScope { l, m_before, w_before, r_before };
+        for (j, op) in inner.iter().enumerate() {
+            exec_op(scope.l, &format!("{}.{}", i, j), inner_unique_val(body, i, j), op);
+        }
+        log("S", format!("{}.end", i), "");
+        panic!("caught-panic");
+    }));
+    match r {
+        Err(p) => {
+            let s = crate::sim::payload_to_string(&*p);
+            if s != "caught-panic" {
+                // not ours: a panic raised inside Shuttle; re-raise
+                std::panic::resume_unwind(p)
+            }
+        }
+        Ok(()) => unreachable!(),
+    }
+    log("E", format!("{}.end", i), "caught");
+}
+
+pub struct TlsVal {
+    key: usize,
+}
+
+impl TlsVal {
+    fn new(key: usize) -> Self {
+        log("T", key.to_string(), "");
+        TlsVal { key }
+    }
+}
+
+impl Drop for TlsVal {
+    fn drop(&mut self) {
+        log("D", self.key.to_string(), "");
+        // Destructors that synchronise are only exercised while a current task exists: the
+        // destructors of an *abandoned* execution run during cleanup without one (known finding F17).
+        if crate::sim::current_task_u32() == u32::MAX {
+            return;
+        }
+        match self.key {
+            0 => {
+                // touches another key: initialises it late, or finds it alive / destroyed
+                let r = TLS1.try_with(|v| v.key).is_ok();
+                log("DA", "1", r.to_string());
+            }
+            1 => {
+                thread::yield_now();
+                log("Y", "", "");
+            }
+            _ => {}
+        }
+    }
+}
+
+shuttle::thread_local! {
+    static TLS0: TlsVal = TlsVal::new(0);
+    static TLS1: TlsVal = TlsVal::new(1);
+    static TLS2: TlsVal = TlsVal::new(2);
+}
+
+pub struct LazyVal {
+    pub slot: usize,
+}
+
+impl LazyVal {
+    fn new(i: usize) -> Self {
+        log("I", format!("L{}", i), "");
+        if i == 1 {
+            thread::yield_now();
+            log("Y", "", "");
+        }
+        log("J", format!("L{}", i), "");
+        LazyVal { slot: i }
+    }
+}
+
+impl Drop for LazyVal {
+    fn drop(&mut self) {
+        log("LD", format!("L{}", self.slot), "");
+    }
+}
+
+/// number of Once slots in the model reserved for the static pool (2 static Onces, 2 lazies)
+pub const STATIC_ONCE_SLOTS: usize = 4;
+
+shuttle::lazy_static! {
+    static ref LAZY0: LazyVal = LazyVal::new(0);
+    static ref LAZY1: LazyVal = LazyVal::new(1);
+}
+
+static SONCE0: Once = Once::new();
+static SONCE1: Once = Once::new();
+
+fn exec_op(l: &mut Local, label: &str, uv: u64, op: &Op) {
+    let ctx = l.ctx.clone();
+    let body = l.body;
     log("S", label, "");
     let res: String = match op {
         Op::Spawn(b) => {
             let b = *b;
             *ctx.parent_thread[b].lock().unwrap() = Some(thread::current());
             let c2 = ctx.clone();
-            let h = thread::spawn(move || run_body(c2, b));
+            let h = thread::Builder::new().name(format!("body{}", b)).spawn(move || run_body(c2, b)).unwrap();
             let tid: usize = h.thread().id().into();
             l.handles.push(Some(h));
             tid.to_string()
@@ -667,32 +853,44 @@ fn exec_op(l: &mut Local, label: &str, idx: usize, op: &Op) {
             let v = shuttle::rand::thread_rng().next_u64();
             (v % (*bound).max(1)).to_string()
         }
-        Op::Catch(inner) => {
-            let m_before: Vec<bool> = l.mguards.iter().map(|g| g.is_some()).collect();
-            let w_before: Vec<bool> = l.wguards.iter().map(|g| g.is_some()).collect();
-            let r_before: Vec<bool> = l.rguards.iter().map(|g| g.is_some()).collect();
-            let inner = inner.clone();
-            let label = label.to_string();
-            let r = std::panic::catch_unwind(std::panic::AssertUnwindSafe(|| {
-                let scope = CatchScope { l, m_before, w_before, r_before };
-                for (j, op) in inner.iter().enumerate() {
-                    exec_op(scope.l, &format!("{}.{}", label, j), idx * 100 + j, op);
-                }
-                log("P", label.clone(), "");
-                panic!("caught-panic");
-            }));
+        Op::ResetSteps => {
+            shuttle::current::reset_step_count();
+            "".into()
+        }
+        Op::TlsWith(k) => {
+            let r = match k % 3 {
+                0 => TLS0.try_with(|v| v.key),
+                1 => TLS1.try_with(|v| v.key),
+                _ => TLS2.try_with(|v| v.key),
+            };
             match r {
-                Err(p) => {
-                    let s = crate::sim::payload_to_string(&*p);
-                    if s == "caught-panic" {
-                        "caught".into()
-                    } else {
-                        // not ours: a panic raised inside Shuttle; re-raise
-                        std::panic::resume_unwind(p)
-                    }
-                }
-                Ok(()) => unreachable!(),
+                Ok(_) => "ok".into(),
+                Err(_) => "destroyed".into(),
             }
+        }
+        Op::LazyGet(i) => {
+            // the static initialisers log with fixed slot markers; translate below
+            let v: &LazyVal = if i % 2 == 0 { &LAZY0 } else { &LAZY1 };
+            let _ = v.slot;
+            "".into()
+        }
+        Op::StaticOnce(i) => {
+            let slot = format!("S{}", i % 2);
+            let once = if i % 2 == 0 { &SONCE0 } else { &SONCE1 };
+            once.call_once(|| {
+                log("I", slot.clone(), "");
+                log("J", slot.clone(), "");
+            });
+            "".into()
+        }
+        Op::ThreadInfo => {
+            let t = thread::current();
+            let id: usize = t.id().into();
+            let me = crate::sim::current_task_u32() as usize;
+            format!("{}:{}", id == me, t.name().unwrap_or("<none>"))
+        }
+        Op::Scope(..) | Op::Catch(..) | Op::ScopedSpawn(_) | Op::ScopeEnd(_) | Op::CatchBegin | Op::CatchEnd => {
+            unreachable!("composite operations are expanded by run_body")
         }
         Op::Fail => {
             log("F", label, "");
@@ -724,6 +922,16 @@ pub struct GenCfg {
     pub catch: bool,
     pub fail: bool,
     pub join_prob: u32, // of 8
+    #[serde(default)]
+    pub tls: bool,
+    #[serde(default)]
+    pub statics: bool,
+    #[serde(default)]
+    pub scope: bool,
+    #[serde(default)]
+    pub info: bool,
+    #[serde(default)]
+    pub reset: bool,
 }
 
 impl GenCfg {
@@ -745,6 +953,11 @@ impl GenCfg {
             catch: false,
             fail: false,
             join_prob: 6,
+            tls: false,
+            statics: false,
+            scope: false,
+            info: false,
+            reset: false,
         }
     }
     pub fn none() -> Self {
@@ -765,6 +978,11 @@ impl GenCfg {
             catch: false,
             fail: false,
             join_prob: 6,
+            tls: false,
+            statics: false,
+            scope: false,
+            info: false,
+            reset: false,
         }
     }
     /// swarm: enable each family with probability 1/2 (at least one)
@@ -782,6 +1000,10 @@ impl GenCfg {
             c.yields = rng.chance(1, 3);
             c.rand = rng.chance(1, 4);
             c.trylock = rng.chance(1, 2);
+            c.tls = rng.chance(1, 5);
+            c.statics = rng.chance(1, 5);
+            c.scope = rng.chance(1, 5);
+            c.info = rng.chance(1, 8);
             if c.mutex || c.rwlock || c.atomic || c.chan || c.barrier || c.once || c.park {
                 break;
             }
@@ -859,8 +1081,36 @@ pub fn gen_program(rng: &mut Rng, cfg: &GenCfg) -> Program {
         }
         bodies[b] = ops;
     }
-    // insert spawns (and joins) into parents
+    // insert spawns (and joins) into parents; with `scope`, some children become scoped threads
+    let mut scoped: Vec<bool> = vec![false; nb];
+    if cfg.scope {
+        for p in 0..nb {
+            let children: Vec<usize> = (1..nb).filter(|b| parent[*b] == p).collect();
+            if children.is_empty() || !rng.chance(2, 3) {
+                continue;
+            }
+            let k = rng.range(1, children.len().min(3));
+            let mut cs = children.clone();
+            rng.shuffle(&mut cs);
+            let mut chosen: Vec<usize> = cs.into_iter().take(k).collect();
+            chosen.sort();
+            let mut inner = vec![];
+            let mut hm = vec![false; res.mutexes];
+            let mut hr = vec![0u8; res.rwlocks];
+            for _ in 0..rng.below(4) {
+                gen_op(rng, cfg, &res, p, nb, &mut hm, &mut hr, &mut inner);
+            }
+            for c in &chosen {
+                scoped[*c] = true;
+            }
+            let pos = rng.below(bodies[p].len() + 1);
+            bodies[p].insert(pos, Op::Scope(chosen, inner));
+        }
+    }
     for b in (1..nb).rev() {
+        if scoped[b] {
+            continue;
+        }
         let p = parent[b];
         let pos = rng.below(bodies[p].len() + 1);
         bodies[p].insert(pos, Op::Spawn(b));
@@ -959,8 +1209,17 @@ fn gen_op(
     if cfg.rand {
         kinds.push(13);
     }
-    if cfg.catch && (res.mutexes > 0 || res.rwlocks > 0) {
-        kinds.push(14);
+    if cfg.tls {
+        kinds.extend([15, 15]);
+    }
+    if cfg.statics {
+        kinds.extend([16, 16]);
+    }
+    if cfg.info {
+        kinds.push(17);
+    }
+    if cfg.reset {
+        kinds.push(18);
     }
     if kinds.is_empty() {
         ops.push(Op::Yield);
@@ -1073,21 +1332,10 @@ fn gen_op(
             _ => Op::Spin,
         }),
         13 => ops.push(Op::Rand(2 + rng.below(5) as u64)),
-        14 => {
-            let mut inner = vec![];
-            if res.mutexes > 0 && (res.rwlocks == 0 || rng.chance(1, 2)) {
-                let m = rng.below(res.mutexes);
-                if !held_m[m] {
-                    inner.push(Op::Lock(m));
-                }
-            } else if res.rwlocks > 0 {
-                let r = rng.below(res.rwlocks);
-                if held_r[r] == 0 {
-                    inner.push(Op::Write(r));
-                }
-            }
-            ops.push(Op::Catch(inner));
-        }
+        15 => ops.push(Op::TlsWith(rng.below(3))),
+        16 => ops.push(if rng.chance(1, 2) { Op::LazyGet(rng.below(2)) } else { Op::StaticOnce(rng.below(2)) }),
+        17 => ops.push(Op::ThreadInfo),
+        18 => ops.push(Op::ResetSteps),
         _ => unreachable!(),
     }
 }
@@ -1097,8 +1345,11 @@ pub fn shrink_candidates(p: &Program) -> Vec<Program> {
     let mut out = vec![];
     // drop a leaf body (a body that spawns nothing) together with its Spawn op; later bodies shift down
     for b in (1..p.bodies.len()).rev() {
-        if p.bodies[b].iter().any(|o| matches!(o, Op::Spawn(_))) {
+        if p.bodies[b].iter().any(|o| matches!(o, Op::Spawn(_) | Op::Scope(..))) {
             continue;
+        }
+        if !p.bodies.iter().any(|ops| ops.iter().any(|o| matches!(o, Op::Spawn(x) if *x == b))) {
+            continue; // scoped child: keep
         }
         let mut q = p.clone();
         q.bodies.remove(b);
@@ -1118,6 +1369,9 @@ pub fn shrink_candidates(p: &Program) -> Vec<Program> {
                     Op::Spawn(x) => {
                         new_ops.push(Op::Spawn(if *x > b { *x - 1 } else { *x }));
                         slot += 1;
+                    }
+                    Op::Scope(bs, inner) => {
+                        new_ops.push(Op::Scope(bs.iter().map(|x| if *x > b { *x - 1 } else { *x }).collect(), inner.clone()));
                     }
                     other => new_ops.push(other.clone()),
                 }
@@ -1151,6 +1405,17 @@ pub fn shrink_candidates(p: &Program) -> Vec<Program> {
     for b in 0..p.bodies.len() {
         for i in 0..p.bodies[b].len() {
             if matches!(p.bodies[b][i], Op::Spawn(_)) {
+                continue;
+            }
+            if let Op::Scope(bs, inner) = &p.bodies[b][i] {
+                // shrink the inner operations of a scope
+                for j in 0..inner.len() {
+                    let mut q = p.clone();
+                    let mut inn = inner.clone();
+                    inn.remove(j);
+                    q.bodies[b][i] = Op::Scope(bs.clone(), inn);
+                    out.push(q);
+                }
                 continue;
             }
             let mut q = p.clone();
